@@ -69,7 +69,7 @@ class Driver:
     def ctype(self, tidx):
         t = self.T[tidx]
         seen = 0
-        while t["is_typedef"] and t["wrapped_type"] in self.T and seen < 10:
+        while (t["is_typedef"] or (t["is_const"] and not t["is_pointer"])) and t["wrapped_type"] in self.T and seen < 10:
             t = self.T[t["wrapped_type"]]
             seen += 1
         if t["is_atomic"]:
@@ -555,6 +555,8 @@ class Driver:
 
     @staticmethod
     def same(t, a, b):
+        if a is None or b is None:
+            return a is b
         if t["k"] == "float":
             if t["c"] == "float":
                 return struct.pack("<f", float(a)) == struct.pack("<f", float(b))
